@@ -232,6 +232,7 @@ def run(ck):
     samples = []
     cases = []
     dcases = []
+    xcases = []
     for deny in ((), ("openat2",)):
         tag = ",".join(deny) or "none"
         send = []
@@ -264,6 +265,11 @@ def run(ck):
                 dterm = D.case_term(job["tree"], res)
                 if dterm:
                     dcases.append((len(dcases), dterm, desc, res))
+            # tie T3: the model PROGRAM run on the model KERNEL from the same tree: same outcome, same final tree
+            if rng.random() < (0.8 if thorough else 0.5):
+                j3 = dict(job)
+                j3["op"] = {k_: v_ for k_, v_ in op.items() if k_ != "_oracles"}
+                D.collect_exec(xcases, job["tree"], j3, res, not deny, ps, desc)
             mainkey = "src" if op["k"] == "rename" else "path"
             pbytes = unhex(op[mainkey])
             par, name = split(pbytes)
@@ -477,9 +483,13 @@ def run(ck):
                 if mtree != rtree:
                     ck.violation("T2d: after replaying the operation's calls the model's tree differs from the real tree",
                                  dict(desc, only_in_model=sorted(str(x) for x in mtree - rtree)[:8], only_in_real=sorted(str(x) for x in rtree - mtree)[:8]), False)
+    if not ck.proof_broken:
+        D.evaluate_exec(ck, xcases, stats, coq_eval, "c14x")
     cov_extra = {"max_tree_changing_calls_in_a_replayed_trace": stats.get("max_effect_calls", 0), "effect_call_fault_runs": stats.get("effect_faults", 0), "effect_call_faults_misplaced": stats.get("effect_faults_misplaced", 0),
                  "dynamic_kernel_traces_validated": stats.get("dyn_traces", 0), "dynamic_kernel_calls_compared": stats.get("dyn_calls", 0),
-                 "dynamic_kernel_final_trees_compared": stats.get("dyn_trees", 0), "dynamic_kernel_traces_leaving_the_model": stats.get("dyn_left_model", 0)}
+                 "dynamic_kernel_final_trees_compared": stats.get("dyn_trees", 0), "dynamic_kernel_traces_leaving_the_model": stats.get("dyn_left_model", 0),
+                 "model_executions_compared_with_the_library": stats.get("exec_runs", 0), "model_executions_agreeing": stats.get("exec_agree", 0),
+                 "model_executions_leaving_the_model": stats.get("exec_left_model", 0)}
     cov = {
         "evaluations": stats["ops"],
         "distinct_nontrivial": len(nontrivial),
